@@ -18,6 +18,7 @@ import (
 	"os"
 	"sort"
 	"strings"
+	"time"
 
 	"github.com/jhalter/mobius/hotline"
 	"github.com/jhalter/mobius/internal/mobius"
@@ -196,6 +197,7 @@ type c15Run struct {
 	nMut    int
 	key     string // violation key for view disagreements
 	dumps   []c15Dump
+	wire    int
 	mask    hotline.AccessBitmap // the privilege bits that exist (survive the YAML form); undefined bits are C16's subject
 }
 
@@ -482,6 +484,75 @@ func (h *c15Run) restart() string {
 	h.ts.Acct = am2
 	h.ts.Srv.AccountManager = am2
 	return "done"
+}
+
+// wireLogins: REAL logins (handshake + login transaction through handleNewConnection) for every login
+// ever used, with up to maxPw of the passwords ever used with it and "": the login succeeds iff the stored
+// hash of exactly THAT login accepts the password, and the session that results is that account's
+// (login, name, privileges) — not merely "some session".
+func (h *c15Run) wireLogins(maxPw int) {
+	c := h.c
+	for _, l := range h.logins {
+		cands := [][]byte{{}}
+		for i, pw := range h.pws[string(l)] {
+			if i < maxPw {
+				cands = append(cands, pw)
+			}
+		}
+		// the password that currently works, if it is among the ones ever used
+		for _, pw := range cands {
+			h.wire++
+			addr := fmt.Sprintf("10.%d.%d.%d:5500", 1+h.wire/60000, (h.wire/250)%240, h.wire%250+1)
+			w := h.ts.Connect(addr, nil)
+			w.Conn.Feed(clientHandshake)
+			w.Conn.Feed(encTran(mkTran(hotline.TranLogin, 1, fld(hotline.FieldUserLogin, obf(l)), fld(hotline.FieldUserPassword, pw))))
+			var sess *hotline.ClientConn
+			done := false
+			waitFor(5*time.Second, func() bool {
+				for _, cc := range h.ts.Srv.ClientMgr.List() {
+					if cc.RemoteAddr == addr {
+						sess = cc
+						return true
+					}
+				}
+				if _, fin := w.WaitDone(0); fin {
+					done = true
+					return true
+				}
+				return len(w.Conn.Written()) > 8
+			})
+			ok := sess != nil
+			var got hotline.Account
+			if ok && sess.Account != nil {
+				got = *sess.Account
+			}
+			w.Conn.EOF()
+			if !done {
+				w.WaitDone(3 * time.Second)
+			}
+			h.ts.TakeOutbox()
+			c.Dist(map[bool]string{true: "wire-login/accepted", false: "wire-login/refused"}[ok])
+			h.obs("I "+hx(l)+" "+hx(pw), fmt.Sprintf("wire login %s pw %s", hx(l), hx(pw)), map[bool]string{true: "auth 1", false: "auth 0"}[ok])
+			acct := h.ts.Acct.Get(string(l))
+			want := acct != nil && h.verifies(acct.Password, pw)
+			note := func() {
+				c.Note("login", hx(l))
+				c.Note("password_as_sent", hx(pw))
+				c.Note("history", strings.Join(h.toks, " "))
+			}
+			if ok != want {
+				note()
+				c.Violation("login-differs", fmt.Sprintf("a real login as %q is %s although the account %s", l,
+					map[bool]string{true: "accepted", false: "refused"}[ok],
+					map[bool]string{true: "exists and its stored hash accepts that password", false: "does not exist or its stored hash rejects that password"}[want]))
+			}
+			if ok && acct != nil && (got.Login != string(l) || got.Name != acct.Name || got.Access != acct.Access || got.Password != acct.Password) {
+				note()
+				c.Note("session_login", hx([]byte(got.Login)))
+				c.Violation("login-session-identity", fmt.Sprintf("logging in as %q yields a session of account %q", l, got.Login))
+			}
+		}
+	}
 }
 
 // finish asks the model for the whole history and compares observation by observation.
